@@ -438,6 +438,32 @@ func c16Check(c *Ctx, cs c16Case) *Failure {
 			return failf("c16:wrong-labels", "label %s = %q, reference %q\n%s", k, gotLabels[k], v, desc())
 		}
 	}
+	// the option that leaves service environments unresolved does not concern labels: they are layered all the same
+	{
+		lc3 := lc
+		lc3.Opts.SkipResolveEnvironment = true
+		r3 := lc3.loadAt(root, false, 0)
+		if r3.Panic != nil {
+			return r3.Panic
+		}
+		if r3.Err != nil {
+			return failf("c16:skip-resolve-environment-changes-outcome", "the model loads, but not with SkipResolveEnvironment: %v\n%s", r3.Err, desc())
+		}
+		s3 := r3.Project.Services["svc"]
+		got3 := map[string]string(s3.Labels)
+		if len(got3) != len(wantLabels) {
+			return failf("c16:wrong-labels:skip-resolve-environment", "with SkipResolveEnvironment: labels %v, reference %v\n%s", got3, wantLabels, desc())
+		}
+		for k, v := range wantLabels {
+			if got3[k] != v {
+				return failf("c16:wrong-labels:skip-resolve-environment", "with SkipResolveEnvironment: label %s = %q, reference %q\n%s", k, got3[k], v, desc())
+			}
+		}
+		if cs.Discard && len(s3.LabelFiles) != 0 {
+			return failf("c16:discard-kept-file-references:skip-resolve-environment", "with SkipResolveEnvironment: label_file %v kept although discard was requested", s3.LabelFiles)
+		}
+		c.Label("also-loaded-with-skip-resolve-environment")
+	}
 	// discarding removes only the file references
 	if cs.Discard {
 		if len(s.EnvFiles) != 0 || len(s.LabelFiles) != 0 {
